@@ -1049,7 +1049,11 @@ func (e *AnimEncoder) increasePreviousDuration(durMS int) error {
 	e.prevMuxIndex = e.muxer.NumFrames() - 1
 	e.frameCount++
 	e.countSinceKeyframe++
-	// prevCanvas and prevFrameRect remain unchanged since the canvas is identical.
+	// prevCanvas remains unchanged since the canvas is identical, but the
+	// previous frame in the muxer is now the 1x1 filler: a dispose-to-background
+	// chosen for the next frame applies to that rectangle only (libwebp:
+	// enc->prev_rect_ = rect).
+	e.prevFrameRect = image.Rect(0, 0, 1, 1)
 	return nil
 }
 
